@@ -26,6 +26,22 @@ def convert_slice(_slice: Slice) -> Call:
     )
 
 
+def convert_index(index: expr) -> expr:
+    """
+    Make a subscript index usable as a call argument:
+    `a[1:2]` and `a[1:2, 3]` contain slices, which are only valid
+    directly inside the brackets.
+    """
+    if isinstance(index, Slice):
+        return convert_slice(index)
+    if isinstance(index, Tuple) and any(isinstance(e, Slice) for e in index.elts):
+        return Tuple(
+            elts=[convert_slice(e) if isinstance(e, Slice) else e for e in index.elts],
+            ctx=Load(),
+        )
+    return index
+
+
 def list_wrapper(nodes: list[expr]) -> expr:
     return List(elts=nodes, ctx=Load())
 
